@@ -34,6 +34,8 @@ def _set_returning(ctx: Ctx) -> set[str]:
 def _is_setexpr(e: ast.AST, setvars: set[str], setfuncs: set[str]) -> bool:
     if isinstance(e, (ast.Set, ast.SetComp)):
         return True
+    if isinstance(e, ast.Subscript) and isinstance(e.value, ast.Name) and ("[]" + e.value.id) in setvars:
+        return True  # element of a list / dict of sets
     if isinstance(e, ast.Call):
         f = unparse(e.func)
         if f in ("set", "frozenset"):
@@ -94,6 +96,10 @@ def _discover(ctx: Ctx) -> list[tuple[FuncInfo, ast.AST, str, ast.AST]]:
             for st, tgt, v in stores(f.node):
                 if isinstance(tgt, ast.Name) and v is not None and _is_setexpr(v, setvars, setfuncs):
                     setvars.add(tgt.id)
+                if isinstance(tgt, ast.Name) and isinstance(v, (ast.ListComp, ast.List, ast.DictComp)):
+                    elts = [v.elt] if isinstance(v, ast.ListComp) else ([v.value] if isinstance(v, ast.DictComp) else v.elts)
+                    if elts and all(_is_setexpr(x, setvars, setfuncs) for x in elts):
+                        setvars.add("[]" + tgt.id)
                 if isinstance(st, ast.AnnAssign) and isinstance(tgt, ast.Name) and SET_ANN.match(unparse(st.annotation)):
                     setvars.add(tgt.id)
         for n in walk_no_nested(f.node):
@@ -421,3 +427,33 @@ def routes_agree(ctx: Ctx) -> None:
         return None
     ctx.ob("GeneratorConfig.read and .write build their XmlContext with the same name generators", rd is not None and wr is not None and ctx_args(rd) == ctx_args(wr) and ctx_args(rd) is not None, at=rd or gen,
            construct="config context", msg=f"{ctx_args(rd) if rd else None} vs {ctx_args(wr) if wr else None}")
+
+
+@rule("C12.R7")
+def no_state_survives_a_run(ctx: Ctx) -> None:
+    """No class-level / module-level mutable container of the generator is written by its methods (state that outlives one generation makes output history dependent)."""
+    n = 0
+    scope = [c for c in ctx.repo.classes.values() if c.module.name.startswith(("xsdata.codegen", "xsdata.formats.dataclass.generator", "xsdata.formats.dataclass.filters", "xsdata.formats.mixins"))]
+    for ci in scope:
+        mutable = {name for name, v in ci.attrs.items() if isinstance(v, (ast.Dict, ast.List, ast.Set)) or (isinstance(v, ast.Call) and unparse(v.func) in ("dict", "list", "set", "defaultdict"))}
+        if not mutable:
+            continue
+        for m in ci.methods.values():
+            for st, tgt, v in stores(m.node):
+                base = tgt
+                while isinstance(base, ast.Subscript):
+                    base = base.value
+                if isinstance(tgt, ast.Subscript) and isinstance(base, ast.Attribute) and base.attr in mutable and isinstance(base.value, ast.Name) and base.value.id in ("self", "cls", ci.name):
+                    n += 1
+                    ctx.ob(f"{ci.name}.{m.name}: class-level container `{base.attr}` is not written at run time", ci.name == "CodeWriter" and m.name == "register_generator", at=m, node=st,
+                           msg="a class attribute shared by every instance is used as a cache: it survives the generator run, so a later generation in the same process (other config) reuses its entries")
+            for c in calls_in(m.node):
+                f = c.func
+                if isinstance(f, ast.Attribute) and f.attr in ("append", "extend", "update", "setdefault", "add", "pop", "clear", "insert", "remove") and isinstance(f.value, ast.Attribute) \
+                        and f.value.attr in mutable and isinstance(f.value.value, ast.Name) and f.value.value.id in ("self", "cls", ci.name):
+                    n += 1
+                    ctx.ob(f"{ci.name}.{m.name}: class-level container `{f.value.attr}` is not mutated at run time", ci.name == "CodeWriter" and m.name in ("register_generator", "unregister_generator"), at=m, node=c,
+                           msg="process-lifetime state in the generator")
+    lru = [f.qual for f in ctx.repo.funcs_in("xsdata.codegen", "xsdata.formats.dataclass.generator", "xsdata.formats.dataclass.filters") if any("lru_cache" in d or d.endswith(".cache") or d == "cache" for d in f.decorators)]
+    ctx.ob("no function of the generator proper is memoised across runs", not lru, at=ctx.repo.module("xsdata.codegen.container"), construct="generator memo functions", msg=f"memoised: {lru}")
+    ctx.note("C12.R7 class-level container writes", n)
